@@ -27,7 +27,9 @@ PK = OBJ("ipv8/keyvault/public/openssl.py::OpenSSLPK", ec=OBJ("contracts/common.
 
 
 def db(cls, **extra):
-    return OBJ(cls, _cursor=CURSOR, _connection=CONN, _pending_commits=INT, _file_path=STR, _logger=LOGGER(), **extra)
+    f = dict(_cursor=CURSOR, _connection=CONN, _pending_commits=INT, _file_path=STR, _logger=LOGGER())
+    f.update(extra)
+    return OBJ(cls, **f)
 
 
 def columns_of(stmt):
@@ -70,7 +72,7 @@ PRE = ["self._pending_commits == 0"]
 
 contract(f"{IDB}::IdentityDatabase.insert_token", "insert_token.execute-then-commit",
          vars={"self": db(f"{IDB}::IdentityDatabase"), "pk": PK, "t": TOKEN}, requires=PRE,
-         call="self.insert_token(pk, t)", raises=[], all_params=True,
+         call="self.insert_token(pk, t)", raises=[],
          ensures=["insert_trace_ok(trace(), 'Tokens', ['public_key', 'previous_token_hash', 'signature', 'content_hash', 'content'],"
                   " (pk.ec.bin, t.previous_token_hash, t.signature, t.content_hash, t.content))",
                   "all(c in schema_columns(self.get_schema(1), 'Tokens') for c in columns_of(trace()[0].args[0]))"],
@@ -78,14 +80,14 @@ contract(f"{IDB}::IdentityDatabase.insert_token", "insert_token.execute-then-com
 
 contract(f"{IDB}::IdentityDatabase.insert_metadata", "insert_metadata.execute-then-commit",
          vars={"self": db(f"{IDB}::IdentityDatabase"), "pk": PK, "m": META}, requires=PRE,
-         call="self.insert_metadata(pk, m)", raises=[], all_params=True,
+         call="self.insert_metadata(pk, m)", raises=[],
          ensures=["insert_trace_ok(trace(), 'Metadata', ['public_key', 'token_pointer', 'signature', 'serialized_json_dict'],"
                   " (pk.ec.bin, m.token_pointer, m.signature, m.serialized_json_dict))",
                   "all(c in schema_columns(self.get_schema(1), 'Metadata') for c in columns_of(trace()[0].args[0]))"])
 
 contract(f"{IDB}::IdentityDatabase.insert_attestation", "insert_attestation.execute-then-commit",
          vars={"self": db(f"{IDB}::IdentityDatabase"), "pk": PK, "ak": PK, "a": ATT}, requires=PRE,
-         call="self.insert_attestation(pk, ak, a)", raises=[], all_params=True,
+         call="self.insert_attestation(pk, ak, a)", raises=[],
          ensures=["insert_trace_ok(trace(), 'Attestations', ['public_key', 'authority_key', 'metadata_pointer', 'signature'],"
                   " (pk.ec.bin, ak.ec.bin, a.metadata_pointer, a.signature))",
                   "all(c in schema_columns(self.get_schema(1), 'Attestations') for c in columns_of(trace()[0].args[0]))"])
@@ -94,7 +96,7 @@ contract(f"{WDB}::AttestationsDB.insert_attestation", "wallet.insert_attestation
          vars={"self": db(f"{WDB}::AttestationsDB", db_name=EXPR("'ProvingAttestations'")), "h": BYTES, "fmt": STR,
                "att": EFFECT("attestation", serialize_private={"returns": BYTES}),
                "sk": EFFECT("secret_key", public_key={"returns": ANY}, serialize={"returns": BYTES})},
-         requires=PRE, call="self.insert_attestation(att, h, sk, fmt)", raises=[], all_params=True,
+         requires=PRE, call="self.insert_attestation(att, h, sk, fmt)", raises=[],
          ensures=["len(calls('cursor.execute')) == 1 and len(calls('connection.commit')) == 1",
                   "trace()[len(trace()) - 1].name == 'connection.commit'",
                   "columns_of(calls('cursor.execute')[0].args[0]) == ['hash', 'blob', 'key', 'id_format']",
@@ -176,3 +178,64 @@ for _n in (0, 1, 2, 3):
                       f"len(result.tree.elements) == {_n}", "result.database is dbe", "len(calls('database.get_tokens_for')) == 1"],
              bounded=f"{_n} stored tokens (hashes, pointers, signatures symbolic)",
              note="the rebuilt pseudonym holds exactly the stored tokens")
+
+# ---------------------------------------------------------------------------------------------------------------------
+# history of two inserts: EACH record is committed before ITS call returns - whatever the database reports about row ids (rowids are per
+# table: the n-th token and the n-th metadata row share theirs) and whatever was inserted before
+class ResultModel:
+    def fetchall(self):
+        return []
+
+    def fetchone(self):
+        return None
+
+
+class CursorModel:
+    """sqlite3.Cursor as far as Database.execute uses it: execute() is an effect, lastrowid an attribute the database controls"""
+
+    def __init__(self, rowid):
+        self.lastrowid = rowid
+
+    def execute(self, statement, bindings=()):
+        emit("cursor.execute", statement, bindings)
+        return ResultModel()
+
+
+def db_events(tr):
+    return [e.name for e in tr if e.name in ("cursor.execute", "connection.commit")]
+
+
+for _first, _second, _args in (("insert_token", "insert_metadata", ("pk, t", "pk, m")), ("insert_metadata", "insert_attestation", ("pk, m", "pk, ak, a")),
+                               ("insert_token", "insert_token", ("pk, t", "pk, t2"))):
+    contract(f"{IDB}::IdentityDatabase.{_second}", f"two-inserts.{_first}-then-{_second}.both-committed",
+             vars={"rowid": INT, "self": db(f"{IDB}::IdentityDatabase", _cursor=EXPR("CursorModel(rowid)")),
+                   "pk": PK, "ak": PK, "t": TOKEN, "t2": TOKEN, "m": META, "a": ATT},
+             requires=PRE, call=f"(self.{_first}({_args[0]}), self.{_second}({_args[1]}))", raises=[],
+             ensures=["db_events(trace()) == ['cursor.execute', 'connection.commit', 'cursor.execute', 'connection.commit']"],
+             note="the same last-row id twice in a row (same value for both statements) must not make the second insert skip its commit")
+
+
+# ---------------------------------------------------------------------------------------------------------------------
+# the insert contracts above cover the calls `insert_*(<record arguments>)`.  Every call site in the library must be of that form: an
+# extra positional or keyword argument (a later-added switch that defers or skips the commit) would take the call outside the contract.
+INSERT_ARITY = {"insert_token": 2, "insert_metadata": 2, "insert_attestation": (3, 4)}
+
+
+def insert_call_audit(ctx):
+    import ast
+    rows = []
+    for rel in ctx.python_files("ipv8"):
+        mod = ctx.module(rel)
+        for call in [n for n in ast.walk(mod.tree) if isinstance(n, ast.Call) and isinstance(n.func, ast.Attribute)
+                     and n.func.attr in INSERT_ARITY]:
+            want = INSERT_ARITY[call.func.attr]
+            want = want if isinstance(want, tuple) else (want,)
+            ok = not call.keywords and len(call.args) in want and not any(isinstance(a, ast.Starred) for a in call.args)
+            rows.append((f"{rel}:{call.lineno}:{call.func.attr}", ok,
+                         f"{rel}:{call.lineno} {ast.unparse(call)[:120]} (record arguments only: {want} positional, no keywords)"))
+    rows.append(("insert-call-sites-found", len(rows) >= 5, f"{len(rows)} call sites of insert_* found"))
+    return rows
+
+
+audit("insert-call-sites", insert_call_audit,
+      note="every stored record goes through an insert call of the form the commit contracts cover")
